@@ -63,6 +63,8 @@ class Report:
         if isinstance(construct, ast.AST):
             node = node or construct
             construct = norm(construct)
+        if not isinstance(construct, str):
+            construct = str(construct)
         line = getattr(node, "lineno", None) if node is not None else None
         rec = {
             "obligation": oid,
